@@ -148,19 +148,34 @@ def build_harnesses(specs):
     return res
 
 def build_driver():
-    """extraction (part of the Coq build: Extract/Extract.vo writes coq/xm.ml) + ocamlopt"""
+    """extraction (part of the Coq build: Extract/Extract.vo writes one .ml per Coq module into coq/) + ocamlopt"""
+    vo = os.path.join(COQ, 'Extract', 'Extract.vo')
+    try:
+        os.remove(vo)   # force re-extraction from the current models
+    except FileNotFoundError:
+        pass
     ok, lg = coq_build(['Extract/Extract.vo'])
-    xm = os.path.join(COQ, 'xm.ml')
     oc = os.path.join(VERIF, 'ocaml')
-    if os.path.exists(xm):
-        shutil.move(xm, os.path.join(oc, 'xm.ml'))
-        shutil.move(os.path.join(COQ, 'xm.mli'), os.path.join(oc, 'xm.mli'))
-    if not os.path.exists(os.path.join(oc, 'xm.ml')):
+    gen = os.path.join(oc, 'gen')
+    os.makedirs(gen, exist_ok=True)
+    moved = False
+    for f in os.listdir(COQ):
+        if f.endswith('.ml') or f.endswith('.mli'):
+            new = open(os.path.join(COQ, f)).read()
+            dst = os.path.join(gen, f)
+            if not os.path.exists(dst) or open(dst).read() != new:
+                open(dst, 'w').write(new)
+                moved = True
+            os.remove(os.path.join(COQ, f))
+    if not ok or not os.path.exists(os.path.join(gen, 'Lts.ml')):
         return None, 'extraction failed: ' + lg[-2000:]
     drv = os.path.join(BUILD, 'driver')
-    srcs = [os.path.join(oc, f) for f in ('xm.mli', 'xm.ml', 'driver.ml')]
-    if not os.path.exists(drv) or os.path.getmtime(drv) < max(os.path.getmtime(s) for s in srcs):
-        rc, o, e = sh(['ocamlfind', 'ocamlopt', '-w', '-a', 'xm.mli', 'xm.ml', 'driver.ml', '-o', drv], cwd=oc, timeout=600)
+    srcs = sorted(os.path.join('gen', f) for f in os.listdir(gen) if f.endswith('.ml') or f.endswith('.mli'))
+    newest = max(os.path.getmtime(os.path.join(oc, s)) for s in srcs + ['driver.ml'])
+    if moved or not os.path.exists(drv) or os.path.getmtime(drv) < newest:
+        rc, o, e = sh(['ocamlfind', 'ocamldep', '-sort', '-I', 'gen'] + srcs, cwd=oc, timeout=120)
+        order = o.split()
+        rc, o, e = sh(['ocamlfind', 'ocamlopt', '-w', '-a', '-I', 'gen'] + order + ['driver.ml', '-o', drv], cwd=oc, timeout=600)
         if rc != 0:
             return None, e[-3000:]
     return drv, ''
